@@ -37,12 +37,23 @@ def gen_case(rng, nops):
         k = rng.random()
         if k < 0.35:
             p = gen_path(rng, dirp=rng.random() < 0.7)
+            if rng.random() < 0.12:
+                p = rng.choice(["/", " /", "/./", ""])        # the root route
             pats.append(p)
             ops.append([0, [p, gen_url(rng), rng.random() < 0.3]])
         elif k < 0.45 and pats:
             ops.append([1, rng.choice(pats)])
         elif k < 0.85:
-            if pats and rng.random() < 0.7:
+            r2 = rng.random()
+            if pats and r2 < 0.2:
+                # raw spelling does not end in '/', the canonical path does (or is the root): resolves to nothing
+                base = rng.choice(pats)
+                if not base.strip().endswith("/"):
+                    base = base.strip() + "/"
+                q = base + rng.choice([" ", "\t", "  ", ".", "a/..", "x/../.", "./ ", "a/b/../..", "a/../\t"])
+            elif r2 < 0.27:
+                q = rng.choice(["", " ", "\t ", "/.", "/..", "/a/..", "/ab/../.", "a/..", ".", "/ ", "/a/b/../.."])
+            elif pats and r2 < 0.75:
                 base = rng.choice(pats)
                 q = base + rng.choice(["", "x", "a", "a/b", "b/c/d", "/a", "../a"])
             else:
@@ -267,7 +278,9 @@ def run(ck):
               sig=lambda c, e, o: "canonical-path", sample=2)
     return ck.finish(
         rule="random save/del/match/get/all histories over nested/overlapping directory and exact patterns "
-             "(non-canonical spellings included), every Match repeated 5x against Go's randomised map order; "
+             "(non-canonical spellings included; requests whose raw spelling does not end in '/' while the canonical path does or is the root: "
+             "blank/tab after the slash, dot segments collapsing onto a directory pattern or '/', empty and all-blank paths; root route '/' saved), "
+             "every Match repeated 5x against Go's randomised map order; "
              "non-trivial = at least two saves and one match; "
              "publish: random histories of route save/del, publisher registration, closure, media.Get and media.GetOrCreate on the real "
              "media package with a per-case list (random subset and order) of pull factories: recording fakes with overlapping Can "
